@@ -398,6 +398,12 @@ Judge(buf, allow, preO, last, out, postO) ==
              ELSE (IF acct = "" THEN ExportBasic(buf, out) ELSE {})
                   \cup (IF ri # 0 THEN {} ELSE Unexplained(km, out, ideal, allow)))
         \cup CacheFindings(buf, pre, post, run, matched)
+        \* C14, last sentence: a truncated V5, V7 or IPFIX packet leaves the caches unchanged
+        \* (judged only when a run of the reference explains the result, against that run's caches)
+        \cup (LET n == Len(run.out) IN
+              IF matched /\ n > 0 /\ run.out[n].k = "err" /\ run.out[n].why \in CutWhy /\ run.out[n].ver \in {5, 7, 10}
+                   /\ \E pr \in Protos : ~GovEq(pr, post[pr], run.tm[pr])
+                THEN {<<"C14", "trunc", "cache", ToString(run.out[n].ver)>>} ELSE {})
         \* unexplained structure on a conformant buffer: the caches must still be the reference's
         \cup (IF ~matched /\ ri = 0 /\ conf
               THEN UNION {IF GovEq(pr, post[pr], ideal.tm[pr]) THEN {} ELSE {<<"C06", "cache", "mismatch", pr>>} : pr \in Protos}
